@@ -286,6 +286,42 @@ Fixpoint run (c : cidr) (ops : list op) (s : state) : state :=
   | o :: r => run c r (fst (step c o s))
   end.
 
+(** * A collection during which an owner appears
+
+    "Owners appear at arbitrary points": also in the middle of a garbage collection.  [X..GcWith] is a
+    collection pass during which, after the collector has read the directory it walks, owner [o]'s
+    directory is created and [o] registers an entry (through its own manager instance, as a container
+    start in another process does).  The code under test looks at each listed entry's owner *when it visits
+    the entry* (os.stat through the link), and the newcomer's entry is not in the listing it walks.  Hence the
+    pass has the effect of the sequence "owner appears; owner registers; collect" - which is the definition
+    below ([lin]); the correspondence check drives the real garbage_collect with os.listdir wrapped and
+    compares.  An implementation that judges liveness from an earlier snapshot does not have this effect. *)
+Inductive xop :=
+| XBase (p : op)
+| XVipGcWith (o : Z) (picked : option Z)
+| XRuleGcWith (k o : Z)
+| XSpecGcWith (k : spec) (o : Z).
+
+Definition lin (x : xop) : list op :=
+  match x with
+  | XBase p => [p]
+  | XVipGcWith o p => [ResUp o; VipAlloc o p; VipGc]
+  | XRuleGcWith k o => [AppUp o; RuleCreate k o; RuleGc]
+  | XSpecGcWith k o => [AppUp o; SpecCreate k o; SpecGc]
+  end.
+
+Definition xstep (c : cidr) (x : xop) (s : state) : state * res :=
+  match x with
+  | XBase p => step c p s
+  | _ => (run c (lin x) s, ROk)          (* the newcomer's own outcome is not the collector's *)
+  end.
+
+Fixpoint xrun (c : cidr) (xs : list xop) (s : state) : state :=
+  match xs with
+  | [] => s
+  | x :: r => xrun c r (fst (xstep c x s))
+  end.
+
 (** * Flattening for the correspondence check *)
 Definition res_z (r : res) : list Z :=
   match r with
@@ -329,13 +365,21 @@ Definition dump_all (s : state) : list Z :=
   dump_ztable (s_vips s) ++ dump_ztable (s_rules s) ++ dump_specs (s_specs s) ++ dump_devs (s_devs s)
   ++ dump_rows (map (fun x => [x]) (s_veth s)).
 
-Fixpoint run_obs (c : cidr) (ops : list op) (s : state) : list Z :=
-  match ops with
-  | [] => dump_all s
-  | o :: r => let (s', rr) := step c o s in res_z rr ++ dump_after o s' ++ run_obs c r s'
+Definition xdump_after (x : xop) (s : state) : list Z :=
+  match x with
+  | XBase p => dump_after p s
+  | XVipGcWith _ _ => dump_ztable (s_vips s)
+  | XRuleGcWith _ _ => dump_ztable (s_rules s)
+  | XSpecGcWith _ _ => dump_specs (s_specs s)
   end.
 
-Definition run_case (inp : cidr * list op) : list Z := run_obs (fst inp) (snd inp) empty_state.
+Fixpoint run_obs (c : cidr) (xs : list xop) (s : state) : list Z :=
+  match xs with
+  | [] => dump_all s
+  | x :: r => let (s', rr) := xstep c x s in res_z rr ++ xdump_after x s' ++ run_obs c r s'
+  end.
+
+Definition run_case (inp : cidr * list xop) : list Z := run_obs (fst inp) (snd inp) empty_state.
 
 (** * Vocabulary of the property statements (decidable predicates; no proofs here) *)
 Definition keys {K} (t : @table K) : list K := map fst t.
